@@ -725,7 +725,7 @@ def v_nodes(v):
             yield from v_nodes(x)
     elif tag == "tag":
         yield from v_nodes(v[2])
-    elif tag == "s" and 1 < len(v[1]) <= 300:
+    elif tag == "s" and 1 < len(v[1]) <= 1500:
         # iterating a str yields its characters
         for ch in v[1]:
             yield ["s", ch]
